@@ -39,14 +39,14 @@ CHECKS = {
         "note": COMMON_NOTE + "np.einsum/fancy indexing/np.append/np.roll are modelled as list functions. Offsets within 1e-3*tol of the +-1e-8 threshold are not generated.",
     },
     "C02": {
-        "text": "16 theorems: the unique_bincount renumbering is correct for every valid indexed mesh (indices valid, no orphans, positions preserved, increasing old index); "
+        "text": "21 theorems: the unique_bincount renumbering is correct for every valid indexed mesh (indices valid, no orphans, positions preserved, increasing old index); "
                 "the assembly sliceMesh (all three return paths) returns, paired with its face mapping, exactly the kernel's triangles of the kept faces, then quads, then triangles, "
                 "each tagged with its source face (mesh lift: induction over the face list, appended vertex pairs, renumbering); provenance and completeness; empty inputs; "
                 "idempotence of re-slicing; the output is a function of the positional faces only (vertex numbering independence) and permuting faces permutes the output. "
-                "Complementarity: the explicit area fraction lamOf satisfies sum of output area vectors = lamOf * face area vector, and lamOf(front) + lamOf(flipped plane) = 1 "
-                "(2 for a face lying in the plane) whenever on-plane corners are exactly on the plane; with offsets strictly inside the tolerance band the identity is false "
-                "and only the C01 sandwich holds. dtypes are observed tags.",
-        "note": COMMON_NOTE + "np.bincount/cumsum/where modelled as list functions; complementarity is proved per face at the level of area-vector fractions (summing over faces and taking norms is the oracle's exact area comparison); dtypes are observed tags.",
+                "a mesh wholly behind the plane yields empty arrays. Complementarity (over R, every face selected, on-plane corners exactly on the plane): area of the returned front mesh + area of the mesh "
+                "returned for the flipped plane = input area + area of the faces lying in the plane (C02_area_complementary, via per-face area fractions lamOf and the mesh lift); with offsets strictly inside "
+                "the tolerance band the identity is false of the code too (defect ~tol) and only the C01 sandwich holds. dtypes are observed tags.",
+        "note": COMMON_NOTE + "np.bincount/cumsum/where modelled as list functions; idempotence needs every face selected (unselected faces behind the plane are kept by design and would be dropped by a full re-slice); dtypes are observed tags.",
     },
     "C06": {
         "text": "37 theorems (all in full, incl. the code-shaped runs/vsplit slicer = span-shaped slicer = declarative unique-run spec, cyclic for closed polylines via the roll+append "
